@@ -1,11 +1,24 @@
 PROPERTY = "C17"
-PACKAGES = ["./aggsender/types"]
+PACKAGES = ["./aggsender/types", "./aggsender/flows"]
 T = "github.com/agglayer/aggkit/aggsender/types."
+F = "github.com/agglayer/aggkit/aggsender/flows."
 OBLIGATIONS = [
     dict(name="C17.d Gap: touching/overlapping => empty; otherwise exactly the blocks strictly between",
          harness=T + "ZZVerif_C17_Gap", bounds="all four uint64 endpoints (2^256 pairs of well-formed ranges), incl. 0 and 2^64-1",
          reach=["disjoint"]),
 ]
-BOUNDS = "see per-obligation bounds"
-OUTSIDE = ""
-ASSUMPTIONS = ["ranges are well-formed (From <= To)"]
+for nb, nc, span, tiers in ((2, 1, 3, ("quick", "thorough")), (4, 3, 5, ("thorough",))):
+    OBLIGATIONS.append(dict(name="C17.a Range: %d bridges, %d claims over %d blocks: same first block, exactly the events of the kept blocks in order, other fields copied" % (nb, nc, span + 1),
+                            harness=T + "ZZVerif_C17_Range", params={"NB": nb, "NC": nc, "SPAN": span}, tiers=tiers, reach=["end"],
+                            bounds="block numbers of the events arbitrary (ordered) in the range, any first block < 2^40, any cut point"))
+for nb, nc, span, tiers in ((2, 1, 2, ("quick", "thorough")), (3, 2, 4, ("thorough",)), (4, 3, 7, ("thorough",))):
+    OBLIGATIONS.append(dict(name="C17.b limitCertSize: %d bridges, %d claims over %d blocks: fits or single block; maximal; first block kept; events = kept blocks" % (nb, nc, span + 1),
+                            harness=F + "ZZVerif_C17_LimitCertSize", params={"NB": nb, "NC": nc, "SPAN": span}, tiers=tiers, reach=["cut"], time_limit_s=3000,
+                            bounds="all size limits (uint32), both certificate types, event block numbers arbitrary (ordered), metadata lengths 1000*(i+1) / 700*(i+1) bytes"))
+for nb, nc, span, tiers in ((2, 1, 2, ("quick", "thorough")), (3, 2, 4, ("thorough",))):
+    OBLIGATIONS.append(dict(name="C17.c last-L2-block limiter: %d bridges, %d claims over %d blocks: ends at min(ToBlock, max) or refuses in the documented cases; retry and non-retry" % (nb, nc, span + 1),
+                            harness=F + "ZZVerif_C17_MaxL2Block", params={"NB": nb, "NC": nc, "SPAN": span}, tiers=tiers, reach=["cut"], time_limit_s=3000,
+                            bounds="all last-block limits (uint64), retry or not, both option flags, event block numbers arbitrary (ordered)"))
+ASSUMPTIONS = ["ranges are well-formed (From <= To); events are ordered by block as the bridge syncer returns them",
+               "metadata lengths are concrete per obligation (slice lengths are concrete in the encoder)"]
+OUTSIDE = "symbolic metadata lengths; float rounding of EstimatedSize beyond the listed sizes"
